@@ -11,6 +11,11 @@ import (
 	"github.com/philpearl/plenc/verifhook"
 )
 
+// maxFieldIndex is the largest field index allowed. It is the largest field
+// number protobuf allows. Note the struct codec allocates a lookup table with an
+// entry for every index up to the largest one used, so indexes should be small.
+const maxFieldIndex = 1<<29 - 1
+
 type wrappedCodecRegistry struct {
 	CodecRegistry
 	typ   reflect.Type
@@ -96,6 +101,9 @@ func BuildStructCodec(p CodecBuilder, registry CodecRegistry, typ reflect.Type, 
 		}
 		if index < 0 {
 			return nil, fmt.Errorf("negative plenc index %d on field %d %s of %s", index, i, sf.Name, typ.Name())
+		}
+		if index > maxFieldIndex {
+			return nil, fmt.Errorf("plenc index %d on field %d %s of %s is too large", index, i, sf.Name, typ.Name())
 		}
 
 		field := &c.fields[count]
